@@ -140,6 +140,14 @@ fn name_pool(rng: &mut SplitMix64, unicode: bool) -> Vec<String> {
     if rng.chance(1, 3) {
         v.push(rng.pick(&["a:b", "x*y", "q?", ""]).to_string());
     }
+    if rng.chance(2, 5) {
+        // names ending in dots / spaces (kept verbatim by every build), sometimes next to their trimmed twin
+        let t = *rng.pick(&TRAILING);
+        v.push(t.to_string());
+        if rng.chance(1, 2) {
+            v.push(t.trim_end_matches(['.', ' ']).to_string());
+        }
+    }
     if rng.chance(1, 4) {
         v.push("y".repeat(256));
     }
